@@ -7211,8 +7211,10 @@ class SFTPServer:
         """
 
         if self._chroot:
+            # POSIX normpath keeps exactly two leading slashes, so strip
+            # them all or the result would be taken as an absolute path
             normpath = posixpath.normpath(posixpath.join(b'/', path))
-            return posixpath.join(self._chroot, normpath[1:])
+            return posixpath.join(self._chroot, normpath.lstrip(b'/'))
         else:
             return path
 
